@@ -277,6 +277,17 @@ impl<const N: usize> Read for Src<N> {
         self.pos += 1;
         Ok(1)
     }
+    /// overrides the provided method: no default_read_exact loop / ErrorKind::Interrupted path
+    fn read_exact(&mut self, buf: &mut [u8]) -> std::io::Result<()> {
+        let mut i = 0;
+        while i < buf.len() {
+            kani::assume(self.pos < self.len);
+            buf[i] = self.data[self.pos];
+            self.pos += 1;
+            i += 1;
+        }
+        Ok(())
+    }
 }
 
 /// Same, but reports end of file (Ok(0)) after `len` bytes: truncated inputs.
@@ -328,4 +339,126 @@ impl crate::bit_reader::ReadBits for Bits {
 /// bit-serial view of a byte slice (LSB first), used by reference decoders and comparisons
 pub fn bit_at(data: &[u8], bitpos: usize) -> u32 {
     ((data[bitpos >> 3] >> (bitpos & 7)) & 1) as u32
+}
+
+// ---------------------------------------------------------------------------
+// Independent reference: RFC 1951 tables and a bit-serial decoder for stored and
+// fixed-Huffman blocks, typed in from the RFC text (NOT derived from the crate).
+// Validated natively against zlib's inflate by native/validate (setup_cmd).
+// ---------------------------------------------------------------------------
+pub const RFC_LEN_BASE: [u16; 29] = [3, 4, 5, 6, 7, 8, 9, 10, 11, 13, 15, 17, 19, 23, 27, 31, 35, 43, 51, 59, 67, 83, 99, 115, 131, 163, 195, 227, 258];
+pub const RFC_LEN_EXTRA: [u8; 29] = [0, 0, 0, 0, 0, 0, 0, 0, 1, 1, 1, 1, 2, 2, 2, 2, 3, 3, 3, 3, 4, 4, 4, 4, 5, 5, 5, 5, 0];
+pub const RFC_DIST_BASE: [u16; 30] = [1, 2, 3, 4, 5, 7, 9, 13, 17, 25, 33, 49, 65, 97, 129, 193, 257, 385, 513, 769, 1025, 1537, 2049, 3073, 4097, 6145, 8193, 12289, 16385, 24577];
+pub const RFC_DIST_EXTRA: [u8; 30] = [0, 0, 0, 0, 1, 1, 2, 2, 3, 3, 4, 4, 5, 5, 6, 6, 7, 7, 8, 8, 9, 9, 10, 10, 11, 11, 12, 12, 13, 13];
+
+pub struct RefBits<'a> {
+    pub data: &'a [u8],
+    pub pos: usize,
+    pub overrun: bool,
+}
+impl<'a> RefBits<'a> {
+    pub fn new(data: &'a [u8], pos: usize) -> Self {
+        RefBits { data, pos, overrun: false }
+    }
+    pub fn bit(&mut self) -> u32 {
+        if self.pos >= self.data.len() * 8 {
+            self.overrun = true;
+            return 0;
+        }
+        let b = bit_at(self.data, self.pos);
+        self.pos += 1;
+        b
+    }
+    /// n-bit integer, least significant bit first (RFC 1951 §3.1.1 data elements)
+    pub fn bits(&mut self, n: u32) -> u32 {
+        let mut v = 0;
+        let mut i = 0;
+        while i < n {
+            v |= self.bit() << i;
+            i += 1;
+        }
+        v
+    }
+    /// Huffman code bits arrive most significant bit first
+    pub fn code_bits(&mut self, acc: u32, n: u32) -> u32 {
+        let mut v = acc;
+        let mut i = 0;
+        while i < n {
+            v = (v << 1) | self.bit();
+            i += 1;
+        }
+        v
+    }
+    /// fixed literal/length code, RFC 1951 §3.2.6
+    pub fn fixed_litlen(&mut self) -> u32 {
+        let c7 = self.code_bits(0, 7);
+        if c7 <= 0b0010111 {
+            return 256 + c7;
+        }
+        let c8 = self.code_bits(c7, 1);
+        if c8 >= 0b00110000 && c8 <= 0b10111111 {
+            return c8 - 0b00110000;
+        }
+        if c8 >= 0b11000000 && c8 <= 0b11000111 {
+            return 280 + (c8 - 0b11000000);
+        }
+        let c9 = self.code_bits(c8, 1);
+        144 + (c9 - 0b110010000)
+    }
+}
+
+#[derive(Copy, Clone, PartialEq, Eq)]
+pub struct RefTok {
+    pub is_ref: bool,
+    pub lit: u8,
+    pub len: u32,
+    pub dist: u32,
+    pub lcode: u32,
+}
+
+pub const REF_MAXTOK: usize = 8;
+pub struct RefBlock {
+    pub toks: [RefTok; REF_MAXTOK],
+    pub n: usize,
+    pub ok: bool,       // block is well-formed per RFC (ends with EOB inside the data, codes valid)
+    pub too_many: bool, // more than REF_MAXTOK tokens
+    pub end_bit: usize, // bit position just after EOB
+}
+
+/// decode one fixed-Huffman block body starting at bit `start` (just after the 3 header bits).
+/// `window` = number of bytes already produced (distance limit).
+pub fn ref_fixed_block(data: &[u8], start: usize, window: usize) -> RefBlock {
+    let mut rb = RefBits::new(data, start);
+    let z = RefTok { is_ref: false, lit: 0, len: 0, dist: 0, lcode: 0 };
+    let mut out = RefBlock { toks: [z; REF_MAXTOK], n: 0, ok: false, too_many: false, end_bit: 0 };
+    let mut produced = window;
+    let mut i = 0;
+    while i <= REF_MAXTOK {
+        let sym = rb.fixed_litlen();
+        if rb.overrun { return out; }
+        if sym == 256 {
+            out.ok = true;
+            out.end_bit = rb.pos;
+            return out;
+        }
+        if i == REF_MAXTOK { out.too_many = true; return out; }
+        if sym < 256 {
+            out.toks[i] = RefTok { is_ref: false, lit: sym as u8, len: 1, dist: 0, lcode: 0 };
+            produced += 1;
+        } else {
+            let lcode = sym - 257;
+            if lcode >= 29 { return out; }
+            let len = RFC_LEN_BASE[lcode as usize] as u32 + rb.bits(RFC_LEN_EXTRA[lcode as usize] as u32);
+            let dcode = rb.code_bits(0, 5);
+            if dcode >= 30 { return out; }
+            let dist = RFC_DIST_BASE[dcode as usize] as u32 + rb.bits(RFC_DIST_EXTRA[dcode as usize] as u32);
+            if rb.overrun { return out; }
+            if dist as usize > produced { return out; }
+            out.toks[i] = RefTok { is_ref: true, lit: 0, len, dist, lcode };
+            produced += len as usize;
+        }
+        out.n = i + 1;
+        i += 1;
+    }
+    out
 }
